@@ -46,7 +46,10 @@ static void c16_txt_setup(void)
   unsigned i;
   PAGE.columns = PC; PAGE.rows = PR;
   for (i = 0; i < NCELL; i++) in_bytes(&PAGE.text[i], sizeof(vbi_char));
-  column = (int8_t) in_u8(); row = (int8_t) in_u8(); width = (int8_t) in_u8(); height = (int8_t) in_u8();
+  /* width, height >= 1 is the documented precondition; everything else (negative origin, region beyond the page) must be
+     rejected by the function */
+  column = (int) (in_u8() % (PC + 2)) - 1; row = (int) (in_u8() % (PR + 2)) - 1;
+  width = 1 + in_u8() % (PC + 1); height = 1 + in_u8() % (PR + 1);
   C16_ICONV.big_endian = in_bool(); C16_ICONV.subst_at = in_bool();
   OUT = (uint8_t *) malloc(TSIZE);          /* exact size */
   V_ASSUME(OUT != NULL);
@@ -54,7 +57,7 @@ static void c16_txt_setup(void)
 
 static int c16_region_valid(void)
 {
-  return column >= 0 && row >= 0 && width >= 1 && height >= 1 && column + width <= PC && row + height <= PR;
+  return column >= 0 && row >= 0 && column + width <= PC && row + height <= PR;
 }
 
 /* one output character of the oracle: code point -> bytes, unrepresentable -> space */
@@ -117,7 +120,7 @@ V_HARNESS(h_c16_txt_flow)
   unsigned pos = 0, i;
   V_INIT();
   c16_txt_setup();
-  V_ASSUME(CS == 2);   /* one byte per character: the subsequence oracle below compares bytes with code points */
+  /* CS must be 2 here (one byte per character: the subsequence oracle below compares bytes with code points) */
 
   r = vbi_print_page_region(&PAGE, (char *) OUT, TSIZE, c16_format(), /* table */ FALSE, FALSE, column, row, width, height);
 
